@@ -156,6 +156,9 @@ func (h *handler) OnOpen(c gnet.Conn) (out []byte, action gnet.Action) {
 	task := w.enterCB("OnOpen", cs)
 	defer w.exitCB(task, cs)
 	cs.opened = true
+	if w.loopOf == nil && !cs.udp {
+		w.loopOf = c.EventLoop()
+	}
 	vsched.Release(&cs.pub) // from here on other goroutines of the application may know the connection
 	w.openedN++
 	w.countChanged()
